@@ -153,6 +153,24 @@ def _where(el, attr, val):
     return {"path": path_of(el), "attribute": attr, "value": val[:80]}
 
 
+def datetime_ok(val: str) -> bool:
+    """xs:dateTime lexical space (XML Schema part 2, 3.2.7): non-negative four-digit-or-more year,
+    fields in range, optional time zone Z or +-hh:mm of at most 14:00"""
+    m = _DT.match(val)
+    if not m:
+        return False
+    y, mo, d, h, mi, s = (int(m.group(i)) for i in range(1, 7))
+    if not (y >= 1 and 1 <= mo <= 12 and 1 <= d <= 31 and (h < 24 or (h == 24 and mi == 0 and s == 0))
+            and mi < 60 and s < 60):
+        return False
+    tz = m.group(8)
+    if tz and tz != "Z":
+        th, tm = int(tz[1:3]), int(tz[4:6])
+        if not ((th < 14 and tm < 60) or (th == 14 and tm == 0)):
+            return False
+    return True
+
+
 def check_lexical(root, fails: list):
     for el in root.iter():
         if not isinstance(el.tag, str) or ns(el) not in (MPD_NS, PATCH_NS):
@@ -165,13 +183,7 @@ def check_lexical(root, fails: list):
                 if not _DUR.match(val):
                     fails.append({"rule": "R4-duration", "what": "xs:duration attribute not lexically valid / negative", **_where(el, attr, val)})
             elif attr in DATETIME_ATTRS.get(name, ()):
-                m = _DT.match(val)
-                ok = bool(m)
-                if m:
-                    y, mo, d, h, mi, s = (int(m.group(i)) for i in range(1, 7))
-                    ok = (y >= 1 and 1 <= mo <= 12 and 1 <= d <= 31 and
-                          (h < 24 or (h == 24 and mi == 0 and s == 0)) and mi < 60 and s < 60)
-                if not ok:
+                if not datetime_ok(val):
                     fails.append({"rule": "R4-dateTime", "what": "xs:dateTime attribute not lexically valid", **_where(el, attr, val)})
             elif attr in UINT_ATTRS.get(name, ()) or attr in UINT_ANY_ELEMENT:
                 if not _UINT.match(val):
